@@ -112,10 +112,12 @@ fn gen_history(tape: &[u8], allow_failing: bool, stats: &mut GenStats) -> Option
         // rewrite every path as a relative spelling from d1
         let rel = |p: &str, t: &mut Tape| -> String {
             if let Some(rest) = p.strip_prefix("d1/") {
-                match t.below(3) {
+                match t.below(4) {
                     0 => rest.to_string(),
                     1 => format!("./{}", rest),
-                    _ => format!("../d1/{}", rest),
+                    2 => format!("../d1/{}", rest),
+                    // `d2/../x` is `x`; dropping the `..` instead of resolving it would name `d2/x`, another file
+                    _ => if rest.contains('/') { rest.to_string() } else { format!("d2/../{}", rest) },
                 }
             } else {
                 match t.below(2) {
@@ -149,10 +151,19 @@ fn abs_job(dir: &Path, call: &(String, QuerySrc, Opts, bool), relative_from: &Op
     if let Some(sub) = relative_from {
         return Job { schema_path: call.0.clone(), query: call.1.clone(), opts: call.2.clone(), cwd: Some(dir.join(sub).to_string_lossy().into()) };
     }
+    // absolute spellings; files directly under d1 are sometimes spelled through `d1/d2/..`
+    // (d1/d2/ holds different files of the same names)
+    let spell = |p: &str| -> String {
+        let h = crate::tape::fnv(p.as_bytes()) ^ crate::tape::fnv(call.2.response_derives.as_deref().unwrap_or("").as_bytes());
+        match p.strip_prefix("d1/") {
+            Some(rest) if !rest.contains('/') && h % 3 == 0 => dir.join("d1/d2/..").join(rest).to_string_lossy().into_owned(),
+            _ => dir.join(p).to_string_lossy().into_owned(),
+        }
+    };
     Job {
-        schema_path: dir.join(&call.0).to_string_lossy().into(),
+        schema_path: spell(&call.0),
         query: match &call.1 {
-            QuerySrc::Path(p) => QuerySrc::Path(dir.join(p).to_string_lossy().into()),
+            QuerySrc::Path(p) => QuerySrc::Path(spell(p)),
             QuerySrc::Text(t) => QuerySrc::Text(t.clone()),
         },
         opts: call.2.clone(),
